@@ -464,6 +464,18 @@ def run_case(case, seg, viol, stats, sample):
                     table.setdefault(m.pos, {})[m.op] = max(table.get(m.pos, {}).get(m.op, 0), rng.randint(2, case["depth"]))
     else:
         table = SL.planted_table(gene, planted, case["depth"], rng, noise=0.5, extra_noise=rng.randint(2, 5))
+    if rng.random() < 0.25 and mode not in ("planted", "homozygous"):
+        # a considered variant nobody planted, seen on exactly as many reads as the absolute minimum asks for
+        # (profile.min_coverage) at a site shallow enough for that to pass the relative filter as well
+        have_pos = set()
+        for ma, mi in planted:
+            have_pos |= {m.pos for m in SL.allele_muts(gene, ma, mi)}
+        cands_ = [m for m in sorted(gene.mutations) if m[0] not in have_pos and ">" in m[1] and len(m[1]) == 3]
+        if cands_:
+            pos_, op_ = rng.choice(cands_)
+            k_ = max(1, len(cn))
+            table[pos_] = {op_: 2, "_": {1: 3, 2: 7, 3: 11}.get(k_, 4 * k_)}
+            stats["min_support_cases"] = stats.get("min_support_cases", 0) + 1
     phases = None
     if case["phase"]:
         # per-fragment phase records consistent with the planted haplotypes
